@@ -733,6 +733,11 @@ fn corr(r: &mut Rng, thorough: bool, o: &mut Out) {
         let tag = format!("{} {}", res_tag(&res), if class == 1 { "radii-sufficient" } else { "radii-scaled-up" });
         o.case(if class == 1 { 2 } else { 12 }, "spellings-arc", pk(&text), enc_result(&res), true, &tag);
     }
+    // degenerate arcs (x-rotation 0: sin/cos exact on both sides)
+    for t in ["M0 0A1 1 0 0 0 1e-200 0", "M0 0 A1000 1000 0 0 1 1e-14 0", "M0 0 A1000 1000 0 1 1 1e-14 0", "M1 1a5 5 0 0 1 0 0", "M1 1a0 5 0 0 1 2 2L3 3", "M1 1A5,1e-6,0,0,1 2 2"] {
+        let res = parse_catch(t);
+        o.case(12, "spellings-arc", pk(t), enc_result(&res), true, &format!("{} degenerate", res_tag(&res)));
+    }
     // (c) malformed stream
     for _ in 0..(300 * scale) {
         let (text, want) = gen_malformed(r);
@@ -1236,7 +1241,14 @@ fn g_arc(r: &mut Rng) -> Vec<f64> {
     let ry = 10f64.powf(r.uniform(-3.0, 3.0));
     // chord between 1e-3 and 3 times the smaller radius, so that both "radii large enough" and
     // "radii scaled up" occur, away from the borderline (checked in the law)
-    let len = rx.min(ry) * 10f64.powf(r.uniform(-3.0, 0.7));
+    // ... and, now and then, a chord that is tiny against the radii (down to underflow): the arc
+    // degenerates numerically, but the path must still reach the end point
+    let (len, from) = match r.below(12) {
+        // (from the origin, so that the tiny chord is not absorbed by the coordinates)
+        0 => (rx.min(ry) * 10f64.powf(r.uniform(-20.0, -8.0)), (0.0, 0.0)),
+        1 => (10f64.powf(r.uniform(-300.0, -150.0)), (0.0, 0.0)),
+        _ => (rx.min(ry) * 10f64.powf(r.uniform(-3.0, 0.7)), from),
+    };
     let ang = r.uniform(0.0, 6.283);
     let rot = r.uniform(-360.0, 360.0);
     vec![from.0, from.1, from.0 + len * ang.cos(), from.1 + len * ang.sin(), rx, ry, rot, r.below(2) as f64, r.below(2) as f64]
@@ -1251,6 +1263,18 @@ fn law_arc(a: &[f64]) -> Option<(String, String)> {
         Ok(p) => p,
         Err(e) => return fail("arc:error", format!("{:?}: {:?}", text, e)),
     };
+    if ((x0 - x1).abs() + (y0 - y1).abs()) < 1e-6 * rx.min(ry) {
+        // numerically degenerate: only "something from the current point to the stated end point"
+        let els = p.elements();
+        let last = els.last().and_then(|e| e.end_point());
+        if els.len() < 2 || last.map_or(true, |q| !pt_close(q, Point::new(x1, y1), 1e-9 * (1.0 + rx.max(ry)))) {
+            return fail("arc:degenerate-no-end-point", format!("{:?} -> {:?}: does not reach the stated end point", text, els));
+        }
+        if els.iter().flat_map(|e| el_coords(e)).any(|v| !v.is_finite()) {
+            return fail("arc:degenerate-non-finite", format!("{:?} -> {:?}", text, els));
+        }
+        return None;
+    }
     // F.6.5 computed independently
     let phi = rot.to_radians();
     let (s, c) = (phi.sin(), phi.cos());
@@ -1313,13 +1337,14 @@ fn law_arc(a: &[f64]) -> Option<(String, String)> {
 }
 
 fn laws() -> Vec<Law> {
+    // (the rarer violation classes first: the driver keeps the first 200 violations)
     vec![
-        Law { name: "spellings", gen: g_seed, check: law_spellings, weight: 4 },
-        Law { name: "respell_drawing", gen: g_seed, check: law_respell_drawing, weight: 3 },
-        Law { name: "roundtrip", gen: g_seed, check: law_roundtrip, weight: 3 },
-        Law { name: "errors", gen: g_seed, check: law_errors, weight: 2 },
-        Law { name: "bytes", gen: g_bytes, check: law_bytes, weight: 4 },
         Law { name: "arc", gen: g_arc, check: law_arc, weight: 2 },
+        Law { name: "errors", gen: g_seed, check: law_errors, weight: 2 },
+        Law { name: "roundtrip", gen: g_seed, check: law_roundtrip, weight: 3 },
+        Law { name: "bytes", gen: g_bytes, check: law_bytes, weight: 4 },
+        Law { name: "respell_drawing", gen: g_seed, check: law_respell_drawing, weight: 3 },
+        Law { name: "spellings", gen: g_seed, check: law_spellings, weight: 4 },
     ]
 }
 
